@@ -5,7 +5,7 @@ from props._m1 import quiet_repo, run_law, replay_law, model_dict
 PROP = "C13"
 LEVEL = "other"
 SELFTEST_PARTS = ("str", "num")
-WALL_BUDGET = {"quick": 1200, "thorough": 9000}
+WALL_BUDGET = {"quick": 3600, "thorough": 14400}
 
 ALPH = "/\\aAb. :éÉ"
 CONFIGS = {"cs": (True, False), "ci": (False, False), "win-cs": (True, True), "win-ci": (False, True)}
